@@ -395,7 +395,7 @@ def scripted_schedule(sd, net, t):
     return plain, plain
 
 
-def typed_schedule(plain, rng, np=None):
+def typed_schedule(plain, rng, np=None, series=True):
     """Re-express a plain schedule with int/float/numpy values, list/tuple/array rows, shuffled keys."""
     items = list(plain.items())
     rng.shuffle(items)
@@ -411,7 +411,21 @@ def typed_schedule(plain, rng, np=None):
             else:
                 row.append(float(v))
         c = rng.random()
-        if np is not None and c < 0.3:
+        if np is not None and c < 0.08 and series:
+            # a row cut out of a table: a pandas Series whose index labels are not 0..L-1 (reversed, offset, strings, repeated),
+            # a float32 / integer-typed array, a non-contiguous or read-only view; a sequence is read by position
+            import pandas as pd
+            L = len(row)
+            lab = rng.choice([list(range(L - 1, -1, -1)), list(range(5, 5 + L)), [f"t{j}" for j in range(L)], [0] * L,
+                              [(j * 7) % max(L, 1) for j in range(L)]])
+            out[k] = pd.Series([float(v) for v in row], index=lab)
+        elif np is not None and c < 0.14:
+            big = np.zeros(2 * len(row) + 1)
+            big[::2][:len(row)] = row
+            view = big[::2][:len(row)]
+            view.flags.writeable = False
+            out[k] = view
+        elif np is not None and c < 0.3:
             out[k] = np.array(row, dtype=float)
         elif c < 0.5:
             out[k] = tuple(row)
